@@ -944,12 +944,14 @@ func main() {
 				CrashKey: func(int) string { return "C07:crash:extreme-ranges" },
 			})
 			fams = append(fams, mc.Family{
-				Name:     "long-preamble",
-				Items:    len(preambleSizes) * len(preambleKinds),
-				Body:     preambleBody,
-				Budget:   budget,
-				Rule:     fmt.Sprintf("item = (size of what precedes the CMap in %v bytes) x (%v): a one-block CMap in standard form behind a header of that size; it must be read exactly as without the header; non-trivial = all", preambleSizes, preambleKinds),
-				Describe: func(i int) string { return fmt.Sprintf("%d bytes of %s", preambleSizes[i%len(preambleSizes)], preambleKinds[i/len(preambleSizes)]) },
+				Name:   "long-preamble",
+				Items:  len(preambleSizes) * len(preambleKinds),
+				Body:   preambleBody,
+				Budget: budget,
+				Rule:   fmt.Sprintf("item = (size of what precedes the CMap in %v bytes) x (%v): a one-block CMap in standard form behind a header of that size; it must be read exactly as without the header; non-trivial = all", preambleSizes, preambleKinds),
+				Describe: func(i int) string {
+					return fmt.Sprintf("%d bytes of %s", preambleSizes[i%len(preambleSizes)], preambleKinds[i/len(preambleSizes)])
+				},
 				CrashKey: func(int) string { return "C07:crash:long-preamble" },
 			})
 			largeSizes := []int{1, 30, 300, 1000}
@@ -957,12 +959,14 @@ func main() {
 				largeSizes = append(largeSizes, 2500)
 			}
 			fams = append(fams, mc.Family{
-				Name:     "large-cmaps",
-				Items:    len(largeSizes) * len(largeKinds),
-				Body:     largeBody(largeSizes),
-				Budget:   budget,
-				Rule:     fmt.Sprintf("item = (number of full 100-entry blocks in %v) x (kind: %v): one CMap with a four-byte code space and that many blocks, source codes in descending file order; every entry must come back, sorted; non-trivial = all", largeSizes, largeKinds),
-				Describe: func(i int) string { return fmt.Sprintf("%d blocks, %s", largeSizes[i%len(largeSizes)], largeKinds[i/len(largeSizes)]) },
+				Name:   "large-cmaps",
+				Items:  len(largeSizes) * len(largeKinds),
+				Body:   largeBody(largeSizes),
+				Budget: budget,
+				Rule:   fmt.Sprintf("item = (number of full 100-entry blocks in %v) x (kind: %v): one CMap with a four-byte code space and that many blocks, source codes in descending file order; every entry must come back, sorted; non-trivial = all", largeSizes, largeKinds),
+				Describe: func(i int) string {
+					return fmt.Sprintf("%d blocks, %s", largeSizes[i%len(largeSizes)], largeKinds[i/len(largeSizes)])
+				},
 				CrashKey: func(int) string { return "C07:crash:large-cmaps" },
 			})
 			return fams
